@@ -1,7 +1,7 @@
 (* Executable entry points of the model, as run by the correspondence checks (extracted to OCaml by
    ExtractAll.v, and evaluated inside Coq with vm_compute by the kernel path).  Definitions only. *)
 From Coq Require Import List String ZArith NArith.
-From Bexpr Require Import Base Strconv Ast Unicode Peg Typing Actions GoGrammar PegGrammar Canon Univ Eval Api Dump Quote.
+From Bexpr Require Import Base Strconv Ast Unicode Peg Typing Actions GoGrammar PegGrammar Canon Univ Eval Api Dump Quote Wt Hooks.
 Import ListNotations.
 Open Scope string_scope.
 
@@ -12,19 +12,7 @@ Definition model_parse_peg (mx : option N) (s : string) : presult := parse (cano
 Definition parse_expr (mx : option N) (s : string) : option expr :=
   match model_parse mx s with Accepted (VExpr e) _ => Some e | _ => None end.
 
-(* the small family of value-transformation hooks the harness uses; 0 = no hook *)
-Definition unwrap_hook (v : rv) : rv :=            (* a struct named Wrap is replaced by its first field *)
-  match v with
-  | Some (TStruct "Wrap" (FD _ _ _ ft :: _), VStruct (x :: _)) => Some (ft, x)
-  | _ => v
-  end.
-Definition const_hook (v : rv) : rv := Some (TInt I0, VInt 7).
-Definition nil_hook (v : rv) : rv := None.          (* reflect.ValueOf(nil): rejected by the evaluator *)
-Definition hook_of (n : nat) : option (rv -> rv) :=
-  match n with
-  | 0 => None | 1 => Some (fun v => v) | 2 => Some unwrap_hook | 3 => Some const_hook | _ => Some nil_hook
-  end%nat.
-
+(* the hook family: Hooks.v (hook_of), with the proof that each member preserves well-typedness *)
 Definition model_eval (re : string -> string -> option bool) (tag : string) (unk : option iface) (hk : nat) (e : expr) (d : iface) : outcome :=
   eval re {| tagname := tag; hook := hook_of hk; unknown := unk |} [] e d.
 
